@@ -522,23 +522,41 @@ let handle (case : sx) : string =
   | L (A id :: _) -> id ^ "\t(error unknown-op)"
   | _ -> "?\t(error bad-case)"
 
+(* every case runs under an alarm: one that the model cannot evaluate in time is answered "(resource)" and the next one is read *)
+exception Case_timeout
+
+let case_id (line : string) : string =
+  let n = String.length line in
+  let i = ref 0 in
+  while !i < n && (line.[!i] = '(' || line.[!i] = ' ') do incr i done;
+  let j = ref !i in
+  while !j < n && line.[!j] <> ' ' && line.[!j] <> ')' do incr j done;
+  String.sub line !i (!j - !i)
+
 let () =
   let ic = if Array.length Sys.argv > 1 then open_in Sys.argv.(1) else stdin in
   let oc = if Array.length Sys.argv > 2 then open_out Sys.argv.(2) else stdout in
+  let limit = (try int_of_string (Sys.getenv "VERIF_CASE_SECS") with _ -> 60) in
+  Sys.set_signal Sys.sigalrm (Sys.Signal_handle (fun _ -> raise Case_timeout));
   (try
      while true do
        let line = input_line ic in
        if String.length (String.trim line) > 0 then begin
          let out =
-           try handle (parse_sexp line)
+           try
+             ignore (Unix.alarm limit);
+             let r = handle (parse_sexp line) in
+             ignore (Unix.alarm 0); r
            with
+           | Case_timeout -> ignore (Unix.alarm 0); case_id line ^ "\t(resource)"
            | Parse_error m -> (match (try parse_sexp line with _ -> A "?") with
                                | L (A id :: _) -> id ^ "\t" ^ paren ["error"; "parse"; String.map (fun c -> if c = ' ' then '_' else c) m]
                                | _ -> "?\t(error parse)")
            | Stack_overflow -> "?\t(error stack-overflow)"
            | e -> "?\t(error " ^ String.map (fun c -> if c = ' ' then '_' else c) (Printexc.to_string e) ^ ")"
          in
-         output_string oc out; output_char oc '\n'
+         ignore (Unix.alarm 0);
+         output_string oc out; output_char oc '\n'; flush oc
        end
      done
    with End_of_file -> ());
